@@ -340,18 +340,48 @@ example :
 
 /-! ## receiver side -/
 
-/-- **R1. Mode second keeps the delivery.** Whatever happens — further arrivals, disposals by the
-    application (which only report the outcome), unsettled dispositions, settled dispositions
-    for other deliveries — the delivery stays in the receiver's unsettled map until a settled
-    disposition from the sender names it. -/
-theorem second_keeps_until_settled (s : RSt) (h2 : s.second = true) (tag : Nat) (hin : tag ∈ s.unsettled) (op : ROp)
+/-- the mode a delivery is under is fixed when it arrives: nothing but the arrival of a delivery with
+    the same tag changes it -/
+theorem mode_stable (s : RSt) (tag : Nat) (op : ROp) (hne : ∀ id pre m, op ≠ .arrive tag id pre m) :
+    modeOf (rstep s op).1 tag = modeOf s tag := by
+  cases op with
+  | arrive t id pre m =>
+    cases pre with
+    | true => simp [rstep]
+    | false =>
+      have : t ≠ tag := fun h => hne id false m (by rw [h])
+      simp [rstep, modeOf, List.find?, this]
+  | dispose t id st =>
+    by_cases hc : t ∈ s.unsettled
+    · by_cases hm : modeOf s t = true
+      · simp [rstep, hc, hm]
+      · simp only [rstep, List.contains_iff_mem, hc, if_true, hm, Bool.false_eq_true, if_false]
+        rfl
+    · simp [rstep, hc]
+  | inDisp f l settled => cases settled <;> simp [rstep] <;> rfl
+
+/-- a delivery's mode is the transfer's own if it names one, else the link's -/
+theorem mode_at_arrival (s : RSt) (tag id : Nat) (m : Option Bool) :
+    modeOf (rstep s (.arrive tag id false m)).1 tag = m.getD s.second := by
+  simp [rstep, modeOf, List.find?]
+
+/-- **R1. A delivery under mode second is kept.** Whatever happens — further arrivals, disposals by the
+    application (which only report the outcome; disposals of *other* deliveries under mode first
+    included), unsettled dispositions, settled dispositions for other deliveries — the delivery stays in
+    the receiver's unsettled map until a settled disposition from the sender names it. -/
+theorem second_keeps_until_settled (s : RSt) (tag : Nat) (h2 : modeOf s tag = true) (hin : tag ∈ s.unsettled) (op : ROp)
     (hno : ∀ f l, op = .inDisp f l true → ∀ it ∈ s.tracked, inSerialRange f l it.1 = true → it.2 ≠ tag) :
     tag ∈ (rstep s op).1.unsettled := by
   cases op with
-  | arrive t id pre =>
+  | arrive t id pre m =>
     cases pre <;> simp [rstep, hin]
   | dispose t id st =>
-    by_cases hc : t ∈ s.unsettled <;> simp [rstep, hc, h2, hin]
+    by_cases hc : t ∈ s.unsettled
+    · by_cases hm : modeOf s t = true
+      · simp [rstep, hc, hm, hin]
+      · have hne : tag ≠ t := fun h => hm (by rw [← h]; exact h2)
+        simp [rstep, hc, hm, hin, hne]
+    · simp [rstep, hc, hin]
   | inDisp f l settled =>
     cases settled with
     | false => simpa [rstep] using hin
@@ -371,15 +401,16 @@ theorem sender_settlement_forgets (s : RSt) (tag id first last : Nat) (ht : (id,
   simp only [List.any_eq_true, List.mem_filter, beq_iff_eq]
   exact ⟨(id, tag), ⟨ht, hr⟩, rfl⟩
 
-/-- **R3. Mode first settles at disposal**: the disposition is sent settled and the delivery is
-    forgotten at once. -/
-theorem first_settles_at_disposal (s : RSt) (h1 : s.second = false) (tag id : Nat) (st : DS) (hin : tag ∈ s.unsettled) :
+/-- **R3. Under mode first the disposal settles**: the disposition is sent settled and the delivery is
+    forgotten at once — decided per delivery, by the mode it arrived under. -/
+theorem first_settles_at_disposal (s : RSt) (tag id : Nat) (h1 : modeOf s tag = false) (st : DS) (hin : tag ∈ s.unsettled) :
     (rstep s (.dispose tag id st)).2 = [.disposition id id true st] ∧
     tag ∉ (rstep s (.dispose tag id st)).1.unsettled := by
   simp [rstep, hin, h1]
 
-/-- **R4. Mode second reports the outcome unsettled.** -/
-theorem second_reports_unsettled (s : RSt) (h2 : s.second = true) (tag id : Nat) (st : DS) (hin : tag ∈ s.unsettled) :
+/-- **R4. Under mode second the outcome is reported unsettled** — even when the deliveries disposed
+    of around it are under mode first. -/
+theorem second_reports_unsettled (s : RSt) (tag id : Nat) (h2 : modeOf s tag = true) (st : DS) (hin : tag ∈ s.unsettled) :
     rstep s (.dispose tag id st) = (s, [.disposition id id false st]) := by
   simp [rstep, hin, h2]
 
@@ -387,6 +418,26 @@ theorem second_reports_unsettled (s : RSt) (h2 : s.second = true) (tag id : Nat)
 theorem settled_not_reported_again (s : RSt) (tag id : Nat) (st : DS) (hout : tag ∉ s.unsettled) :
     rstep s (.dispose tag id st) = (s, []) := by
   simp [rstep, hout]
+
+/-- **R6. the settled flag of every disposition the receiver writes is the negation of the mode of the
+    delivery it names** — for every history -/
+theorem settled_flag_is_the_mode (s : RSt) (tag id : Nat) (st : DS) :
+    ∀ o ∈ (rstep s (.dispose tag id st)).2, o = .disposition id id (!(modeOf s tag)) st := by
+  intro o ho
+  by_cases hc : tag ∈ s.unsettled
+  · by_cases hm : modeOf s tag = true
+    · simp [rstep, hc, hm] at ho ⊢; exact ho
+    · have hf : modeOf s tag = false := by simpa using hm
+      simp [rstep, hc, hf] at ho ⊢; exact ho
+  · simp [rstep, hc] at ho
+
+-- non-vacuity: a link in mode second, a delivery that names mode first between two that do not
+example :
+    (let r := rrun (rinit true) [.arrive 0 10 false none, .arrive 1 11 false (some false), .arrive 2 12 false none,
+      .dispose 0 10 .accepted, .dispose 1 11 .accepted, .dispose 2 12 .accepted]
+     (r.1.unsettled, r.2)) =
+    ([0, 2], [.disposition 10 10 false .accepted, .disposition 11 11 true .accepted, .disposition 12 12 false .accepted]) := by
+  decide +kernel
 
 -- non-vacuity: mode second, two deliveries across the wrap, one settled by the sender
 example :
